@@ -46,7 +46,8 @@ class Builtin:
 
 GLOBAL_NAMES = {n: Builtin(n) for n in (
     'len', 'min', 'max', 'int', 'float', 'abs', 'range', 'prange', 'sqrt', 'bool', 'tuple', 'list', 'enumerate',
-    'isinstance', 'any', 'all', 'sorted', 'set', 'zip', 'sum', 'type', 'slice', 'memoryview', 'super', 'str', 'ValueError', 'TypeError', 'IndexError')}
+    'isinstance', 'any', 'all', 'sorted', 'set', 'zip', 'sum', 'type', 'slice', 'memoryview', 'super', 'str', 'ValueError', 'TypeError', 'IndexError',
+    'Integral', 'Iterable', 'Ellipsis')}
 GLOBAL_NAMES['True'] = SBool(True)
 GLOBAL_NAMES['False'] = SBool(False)
 
@@ -386,6 +387,10 @@ def call_builtin(eng, s, fr, name, args, kwargs, lineno, node):
         tn = type_name(obj)
         from . import extract
         anc = set(extract.mro(tn)) | {tn}
+        if tn == 'int':
+            anc.add('Integral')          # numbers.Integral: python and numpy integers
+        if tn in ('tuple', 'list', 'ndarray', 'str'):
+            anc.add('Iterable')
         return SBool(any(class_name(c) in anc for c in names))
     raise Unsupported(f"builtin {name} at line {lineno}")
 
